@@ -323,6 +323,7 @@ theorem C18_model_meets_spec :
           by_cases he : c.tz = []
           · simp [he]
           · simp [he]
-        simp only [specDecodeOK, h1, hrt, hnr, hloc, h3, Bool.true_and, Bool.and_true, beq_self_eq_true]
+        rw [h3] at hnr
+        simp only [specDecodeOK, h1, hrt, hnr, hloc, h3, Bool.and_true, beq_self_eq_true]
 
 end AGH.C18
